@@ -33,6 +33,8 @@ def sym(i):
 
 def file_strategy(min_refs=0, max_refs=3):
     return st.fixed_dictionaries({
+        # Objects whose symbol count straddles wild's per-work-item symbol chunk (5000) and its multiples.
+        "filler": st.one_of(st.just(0), st.just(0), st.just(0), st.integers(4985, 5015), st.integers(9985, 10015)),
         "nd": st.sampled_from([0, 1, 1, 1, 2]),
         "dup": st.integers(0, 63),
         "refs": st.lists(st.tuples(st.integers(0, 63), st.sampled_from([False, False, True])).map(list),
@@ -191,7 +193,7 @@ def build_inputs(case, d):
 def spec_for(f, fid):
     return {"defs": [{"name": sym(s), "kind": "data", "strength": "strong", "id": 1 + s} for s in f["defs"]],
             "refs": [{"name": sym(s), "kind": "data", "weak": weak} for s, weak in f["refs"]],
-            "markers": [marker(fid)]}
+            "markers": [marker(fid)], "filler_syms": f.get("filler", 0)}
 
 
 def command_line(case, order):
